@@ -286,6 +286,21 @@ func (c *ctx) buildAll(names []string) error {
 	if !failed {
 		return nil
 	}
+	// The fallbacks below exist for trees whose internals no longer fit the in-package observers. A build error
+	// that is not in an observer file (zz_verif_*) is a defect of the harness itself and must not silently weaken
+	// the check.
+	inObserver := false
+	for _, r := range res {
+		if r.err != nil && (strings.Contains(r.out, "zz_verif_") || strings.Contains(r.out, "zzverifrt")) {
+			inObserver = true
+		}
+	}
+	if !inObserver {
+		if out, err := run(filepath.Join(c.scratch, "voi"), goEnv(), "go", "build", "./..."); err != nil {
+			return fmt.Errorf("the working tree does not build: %s", firstLines(out, 20))
+		}
+		return fmt.Errorf("driver build failed outside the in-package observers (harness defect):\n%s", strings.Join(c.notes, "\n"))
+	}
 	if c.spec.Instr != "" {
 		// instrumented checks need the zzverifrt runtime: retry with the minimal observer set (runtime + lattice)
 		if out, err := run(filepath.Join(c.scratch, "voi"), goEnv(), "go", "build", "-tags", "verifmin", "./..."); err != nil {
